@@ -251,6 +251,7 @@ def count_with_wrap(items, wrap):
 
 ANON = __import__('re').compile(r'^\$\{\d+\}$')
 BOOLEANS = ()      # attribute names the config under generation declares boolean (set by the generator)
+SKIPPED = [0]
 INDENT_FORMATTER = False   # pug/slim/haml write a text value AND the children; html puts the children in place of the first field
 
 
@@ -276,6 +277,10 @@ def count_tabstops(items, mult=1, k=1):
             if kind in ('empty', 'emptyq') and _name in ('class', 'id'):
                 if not INDENT_FORMATTER:
                     n += m
+                else:
+                    # today pug/slim/haml do not write an empty id/class at all; should they ever write it
+                    # with a tabstop, that is fine by the property too: both counts are accepted
+                    SKIPPED[0] += m
             elif kind in ('empty', 'emptyq') and _name not in BOOLEANS:
                 n += m
             elif kind == 'fields' and ANON.match(_val):
@@ -348,7 +353,12 @@ def used_names(items, names=None, attrs=None):
 
 def counted_meta(items, wrap=None):
     names, attrs = used_names(items)
-    return {'mode': 'auto', 'expect': count_with_wrap(items, wrap), 'names': sorted(names), 'attrs': sorted(attrs), 'wrap': wrap}
+    SKIPPED[0] = 0
+    expect = count_with_wrap(items, wrap)
+    meta = {'mode': 'auto', 'expect': expect, 'names': sorted(names), 'attrs': sorted(attrs), 'wrap': wrap}
+    if SKIPPED[0]:
+        meta['expect_alt'] = expect + SKIPPED[0]
+    return meta
 
 
 def gen_markup_counted(rng, wrap=None):
@@ -369,6 +379,8 @@ def gen_markup_explicit(rng, wrap=None, snippets=None):
            'expect_named': sorted(expected_named(items))}
     if not t.uses_snippets:
         out['expect_anon'] = meta['expect']
+        if 'expect_alt' in meta:
+            out['expect_anon_alt'] = meta['expect_alt']
     else:
         out['names'] = [n for n in out['names'] if n not in SNIPPET_FIELDS]
     return abbr, out
